@@ -204,8 +204,12 @@ def evaluate(cases, K, name, run, timeout=3000, spec='MC_EdgeCases', invariants=
         with open(os.path.join(d, 'cases.ndjson'), 'w') as f:
             for c in cases:
                 f.write(json.dumps(c) + '\n')
-        mc = '---- MODULE %s ----\nEXTENDS %s\nKK == %d\n====\n' % (name, spec, K)
-        cfg = 'SPECIFICATION Spec\nCONSTANTS\n  K <- KK\n' + ''.join('INVARIANT %s\n' % iv for iv in invariants)
+        if K is None:
+            mc = '---- MODULE %s ----\nEXTENDS %s\n====\n' % (name, spec)
+            cfg = 'SPECIFICATION Spec\n' + ''.join('INVARIANT %s\n' % iv for iv in invariants)
+        else:
+            mc = '---- MODULE %s ----\nEXTENDS %s\nKK == %d\n====\n' % (name, spec, K)
+            cfg = 'SPECIFICATION Spec\nCONSTANTS\n  K <- KK\n' + ''.join('INVARIANT %s\n' % iv for iv in invariants)
         try:
             try:
                 res = tlc.run(name, cfg, mc_text=mc, dump=True, keep_dir=d, timeout=timeout)
